@@ -14,6 +14,14 @@ import YorkieModel.Lemmas.UndoArray2
 import YorkieModel.Lemmas.UndoArray17
 import YorkieModel.Lemmas.UndoArray9
 import YorkieModel.Lemmas.UndoArray18
+import YorkieModel.Lemmas.UndoArray19
+import YorkieModel.Lemmas.UndoArray20
+import YorkieModel.Lemmas.UndoArray21
+import YorkieModel.Lemmas.UndoArray22
+import YorkieModel.Lemmas.UndoArray23
+import YorkieModel.Lemmas.UndoArray25
+import YorkieModel.Lemmas.UndoArray26
+import YorkieModel.Lemmas.UndoArray27
 namespace Yorkie.Props.C14
 open Yorkie Yorkie.Crdt Yorkie.Undo
 
@@ -53,7 +61,9 @@ example : (List.replicate 50 ([] : List UOp)).length ≥ maxDepth := by decide
 
 State: any heap (tombstones, nested containers, arrays), any stacks.  `Fresh h` (Lemmas/UndoMain.lean):
 the heap is well formed relative to some home assignment (`WF`: parents are containers, key lists
-sorted, every member child has one home key and home container), every stored identity and
+sorted, every member child of a container that is not a tombstone has one home key and home
+container - tombstoned containers are exempt: the tombstone of a restored array element still refers
+to the re-registered descendants, section 9), every stored identity and
 `positionedAt` is at most `h.lamport` (`Bounded`), and the root is a live container.  The edited object
 must not be `orphaned`, i.e. have no REMOVED ancestor-or-self; `noTw = fun _ => false`: in the repaired
 tree (`fixReconcileParent`) twin marks are invisible to the skip rule, so the former conditions on
@@ -483,8 +493,9 @@ leaf member of the object `p`, or of a visible leaf of the array `p`), `increase
 `insert p prev v` = `Add` of a new leaf `v` into the array `p` behind the VISIBLE element `prev` (or
 `prev = headId`: at the front).  `runMEdits` performs one local change per edit; `MEditsOk H h es`
 (`GoodOp3`, Lemmas/UndoArray11.lean): when its turn comes the edit satisfies the conditions of section 4
-(objects, counters; a counter must be a member of a live object - a counter inside an array is
-outside the alphabet of this theorem) resp. the array is live and not orphaned, the
+(objects, counters; the counter of an `increase` may be an object member or an ARRAY ELEMENT: when the
+element is deleted and restored under a new identity the repaired `ReconcileCreatedAt` rewrites the
+counter identity of the stacked `Increase`s, cf. `redo_counter_in_array_fixed`) resp. the array is live and not orphaned, the
 anchor / target is in the visible list, the deleted element is a leaf, and `H` homes the
 ticket of an inserted element in `p`.  `checkMRun` is the decidable version.  Hypotheses on the start
 state: `WF`, `Bounded` (as in section 4), every array of the heap is plain (`PlainArrs`,
@@ -580,6 +591,25 @@ example (fuel : Nat) : marshal (redoN 3 (undoN 6 (runMEdits hArr exMRun))).doc f
 example : visible (undoN 6 (runMEdits hArr exMRun)) = "{\"a\":x,\"arr\":[1,2]}" ∧
     visible (redoN 3 (undoN 6 (runMEdits hArr exMRun))) = "{\"a\":x,\"arr\":[1,7,2],\"c\":8}" := by decide
 
+/-- a counter as array element (history S5 in the alphabet): insert a counter behind x, increase by 5,
+    delete y, increase by 2, delete the counter.  Five undos and four redos re-identify the counter
+    twice; the stacked increases follow it. -/
+def exCRun : List MEdit :=
+  [.insert tA tX (.newCounter false 0), .increase ⟨4, 1, 0⟩ 5, .remove tA tY, .increase ⟨4, 1, 0⟩ 2,
+   .remove tA ⟨4, 1, 0⟩]
+
+example : checkMRun HArr hArr exCRun = true := by decide
+example : visible (runMEdits hArr exCRun) = "{\"arr\":[1]}" ∧
+    visible (runMEdits hArr (exCRun.take 4)) = "{\"arr\":[1,7]}" := by decide
+
+example (fuel : Nat) : marshal (redoN 4 (undoN 5 (runMEdits hArr exCRun))).doc fuel rootId =
+    marshal (runMEdits hArr (exCRun.take 4)).doc fuel rootId :=
+  redo_stack_inv_array HArr hArr wf_dArr bounded_dArr plain_dArr (by decide)
+    [] (exCRun.take 4) (exCRun.drop 4) (checkMRun_ok (by decide)) (by decide) fuel
+
+example : visible (undoN 5 (runMEdits hArr exCRun)) = "{\"arr\":[1,2]}" ∧
+    visible (redoN 4 (undoN 5 (runMEdits hArr exCRun))) = "{\"arr\":[1,7]}" := by decide
+
 end examplesArrayDepth
 
 /-! ### 8. container-valued restore (depth 1, undo)
@@ -595,8 +625,10 @@ identities `instantiate h.doc p cv false` writes, (2) each of them is an entry o
 instantiated heap the visible normal form (`vis`) and liveness it has in `h.doc`, (3) `p` is not
 orphaned (no removed ancestor-or-self) while `u` is
 tombstoned (which also excludes parent cycles through `u`).  The predicate also holds for values with
-removed descendants (`emptied` copies) as long as (2) evaluates to true; what is missing for a full
-statement is a structural characterisation of all heaps on which it holds.
+removed descendants (`emptied` copies) as long as (2) evaluates to true (removed LEAVES; a removed
+container with content below `u` makes (2) false).  A structural class that includes all removed
+descendants is `TreeBelowT`, section 13: `undo_do_delete_container_tombstones`,
+`undo_do_set_overwrite_container_tombstones`.
 
 `undo_do_set_overwrite_container`, `undo_do_delete_container`: the predicate is discharged in general
 (Lemmas/UndoArray18.lean, `copyStable_of_tree`) when the subtree below `u` is a tree of live elements:
@@ -604,7 +636,7 @@ statement is a structural characterisation of all heaps on which it holds.
 reached through, every array is reproduced by `Array.DeepCopy` - `arrCopy_plain`: true for arrays
 without moved elements -, nesting depth within `copyFuel`), every identity occurs once in the copy, and
 `p` is not inside; then `instantiate (capture …)` writes exactly the entries that are there.
-`treeBelowB` is the decidable version.  Redo of these edits is not covered. -/
+`treeBelowB` is the decidable version.  Redo of these edits: section 11 (tree case). -/
 
 /-- undo of `obj.k = leaf` over a live member `u` of any kind (leaf or container with content) -/
 theorem undo_do_set_overwrite_container_partial (h : Hist) (fr : Fresh h) (p u : Ticket) (k : String) (v : Val)
@@ -671,5 +703,346 @@ example :
     visible (undo (doChange hN [.remove rootId tO hN.next])) = "{\"o\":{\"x\":1,\"y\":[2]}}" := by decide
 
 end examplesContainer
+
+/-! ### 9. edits inside a container that is (or lies below) a restored array element, depth 1
+
+After `delete arr[i]` + undo the element lives under a new identity, its descendants are re-registered
+below it, and the tombstone of the old identity still refers to them.  Before the repair such
+descendants were "twinned" and every undo inside them was skipped (`undo_do_nested_twin_witness_unrepaired`).
+Now (1) the skip rule sees no twins (`noTw`), and (2) `WF` asks nothing of tombstoned containers, so
+`Fresh` HOLDS for such heaps and the depth-1 theorems of section 2 (`undo_do_set_fresh`, …) apply
+verbatim with `p` inside the restored element; the only condition left is `orphaned … p = false`
+(no REMOVED ancestor-or-self).  The examples instantiate them on the heap `hR` (Lemmas/UndoArray19.lean)
+= the state of history S2 after the undo: arr = [x' = {"p":{}}] with the tombstone `x`. -/
+
+section examplesRestored
+open Yorkie.Undo.Restored
+
+example : Fresh hR := fresh_hR
+example : visible hR = "{\"arr\":[{\"p\":{}}]}" ∧ visible hR = visible Witness.s2 ∧ hR.next = Witness.T 5 1 := by decide
+/-- the tombstone `tX` still has the member, which is registered below the new identity `tX'` -/
+example : (∃ e, hR.doc tX = some e ∧ e.removed = true) ∧ winner hR.doc tX' "p" = some tP ∧
+    (∃ e, hR.doc tP = some e ∧ e.parent = some tX') := ⟨⟨_, rfl, rfl⟩, by decide, ⟨_, rfl, rfl⟩⟩
+/-- hypotheses of `undo_do_set_fresh` for an edit inside the member `p` of the restored element -/
+example : isObj hR.doc tP = true ∧ orphaned hR.doc noTw orphanFuel tP = false ∧ winner hR.doc tP "b" = none ∧
+    leafBody (Val.prim "2").body = true := by decide
+
+/-- instance of `undo_do_set_fresh` / `redo_undo_do_set_fresh` inside the restored element -/
+example (fuel : Nat) :
+    marshal (undo (doChange hR [.set tP "b" (UVal.ofVal (.prim "2") hR.next) hR.next])).doc fuel rootId =
+      marshal hR.doc fuel rootId :=
+  undo_do_set_fresh hR fresh_hR tP "b" (.prim "2") (by decide) (by decide) rfl (by decide) fuel
+
+example (fuel : Nat) :
+    marshal (redo (undo (doChange hR [.set tP "b" (UVal.ofVal (.prim "2") hR.next) hR.next]))).doc fuel rootId =
+      marshal (doChange hR [.set tP "b" (UVal.ofVal (.prim "2") hR.next) hR.next]).doc fuel rootId :=
+  redo_undo_do_set_fresh hR fresh_hR tP "b" (.prim "2") (by decide) (by decide) rfl (by decide) fuel
+
+/-- the same evaluated, on `hR` and on the history S2 itself -/
+example :
+    visible (doChange hR [.set tP "b" (UVal.ofVal (.prim "2") hR.next) hR.next]) = "{\"arr\":[{\"p\":{\"b\":2}}]}" ∧
+    visible (undo (doChange hR [.set tP "b" (UVal.ofVal (.prim "2") hR.next) hR.next])) = "{\"arr\":[{\"p\":{}}]}" ∧
+    visible (undo (doChange Witness.s2 [.set tP "b" (UVal.ofVal (.prim "2") hR.next) hR.next])) =
+      "{\"arr\":[{\"p\":{}}]}" := by decide
+
+end examplesRestored
+
+/-! ### 10. arrays whose elements are containers: undo of `delete arr[i]`, depth 1
+
+The deleted element `x` may be of ANY kind (leaf, counter, object, array) as long as what lies below it
+is a tree of live elements in which every identity occurs once (`ArrAtC.tree`, `hnd`, `hxS`, `hpS`; the
+decidable version of `TreeBelow` is `treeBelowB`).  Undo re-inserts a copy under a fresh identity `t'`
+(`ReconcileCreatedAt`), re-registers the direct children below `t'` (`SetCreatedAt` → `reparent`) and
+the document prints as before the deletion.  The remaining fields of `ArrAtC` are those of `ArrDel`
+(section 3): the array is live, holds `x` once, positions are distinct, bounded and not the head. -/
+
+theorem undo_do_array_delete_container (h : Hist) (fr : Fresh h) (p x : Ticket) (pe xe : Elem)
+    (nodes : List PosNode) (moved : Ticket → Option Ticket)
+    (a : ArrAtC h.doc h.lamport p x pe xe nodes moved) (hroot : x ≠ rootId) (fuel : Nat) :
+    marshal (undo (doChange h [.remove p x h.next])).doc fuel rootId = marshal h.doc fuel rootId :=
+  undo_do_array_delete_container_lemma fr a hroot fuel
+
+/-- redo after that undo.  The redo is a `Remove` of the restored copy and is subject to the skip rule, so
+    the array must not be orphaned in the restored heap; `rootedAvoid h.doc S 63 p` (Lemmas/UndoArray22.lean,
+    a Boolean function) says that from `p` the parent links lead to an entry without parent through
+    live entries outside `S` = `x` and what lies below it - true whenever the document is a tree. -/
+theorem redo_undo_do_array_delete_container (h : Hist) (fr : Fresh h) (p x : Ticket) (pe xe : Elem)
+    (nodes : List PosNode) (moved : Ticket → Option Ticket)
+    (a : ArrAtC h.doc h.lamport p x pe xe nodes moved) (hroot : x ≠ rootId)
+    (hrt : rootedAvoid h.doc (x :: (copyBody h.doc copyFuel x xe.body).2.map (·.1)) 63 p = true) (fuel : Nat) :
+    marshal (redo (undo (doChange h [.remove p x h.next]))).doc fuel rootId =
+      marshal (doChange h [.remove p x h.next]).doc fuel rootId :=
+  redo_undo_do_array_delete_container_lemma fr a hroot hrt fuel
+
+section examplesArrayContainer
+open Yorkie.Undo.Restored
+
+example : rootedAvoid hR.doc (tX' :: (copyBody hR.doc copyFuel tX' eX'.body).2.map (·.1)) 63 tA = true := rooted_hR
+
+example (fuel : Nat) :
+    marshal (redo (undo (doChange hR [.remove tA tX' hR.next]))).doc fuel rootId =
+      marshal (doChange hR [.remove tA tX' hR.next]).doc fuel rootId :=
+  redo_undo_do_array_delete_container hR fresh_hR tA tX' eArr eX' _ _ arrAtC_hR (by decide) rooted_hR fuel
+
+example : visible (redo (undo (doChange hR [.remove tA tX' hR.next]))) = "{\"arr\":[]}" := by decide
+
+/-- the hypotheses hold on `hR` for its element `{"p":{}}` (which itself is a restored copy) -/
+example : Fresh hR ∧ ArrAtC hR.doc hR.lamport tA tX' eArr eX' [⟨tX', some tX'⟩, ⟨tX, some tX⟩] (fun _ => none) ∧
+    tX' ≠ rootId := ⟨fresh_hR, arrAtC_hR, by decide⟩
+
+example (fuel : Nat) :
+    marshal (undo (doChange hR [.remove tA tX' hR.next])).doc fuel rootId = marshal hR.doc fuel rootId :=
+  undo_do_array_delete_container hR fresh_hR tA tX' eArr eX' _ _ arrAtC_hR (by decide) fuel
+
+example : visible hR = "{\"arr\":[{\"p\":{}}]}" ∧ visible (doChange hR [.remove tA tX' hR.next]) = "{\"arr\":[]}" ∧
+    visible (undo (doChange hR [.remove tA tX' hR.next])) = "{\"arr\":[{\"p\":{}}]}" := by decide
+
+end examplesArrayContainer
+
+/-! ### 11. container-valued restore, redo at depth 1 (tree case)
+
+Same hypotheses as `undo_do_set_overwrite_container` / `undo_do_delete_container` (section 8).  When the
+subtree below `u` is a tree of live elements the copy writes back exactly the entries that are there, so
+after the undo the heap is the one before the edit except for the ordering ticket of the member `k` (and
+the tombstone of the overwriting leaf); the entry on the redo stack is the edit again (`Set` of the same
+leaf / `Remove` of `u`, which keeps its identity because a `Set` is not re-identified), and executing it
+gives the heap after the edit up to ordering tickets.  Not covered: redo under the weaker hypothesis
+`copyStableB` of the `_partial` theorems (there the heap after the undo differs from `h.doc` in entries
+that are not printed - dead keys, positions of removed nodes - and the second capture is a different
+value). -/
+
+/-- redo after undo of `obj.k = leaf` over a live member `u` whose subtree is a tree of live elements -/
+theorem redo_undo_do_set_overwrite_container (h : Hist) (fr : Fresh h) (p u : Ticket) (k : String) (v : Val)
+    (ue : Elem) (hp : isObj h.doc p = true) (hv : leafBody v.body = true) (hk : winner h.doc p k = some u)
+    (hu : h.doc u = some ue) (tree : TreeBelow h.doc copyFuel u ue.body)
+    (hnd : ((copyBody h.doc copyFuel u ue.body).2.map (·.1)).Nodup)
+    (hpS : p ∉ u :: (copyBody h.doc copyFuel u ue.body).2.map (·.1))
+    (horph : orphaned (kill h.doc (some u)) noTw orphanFuel p = false) (fuel : Nat) :
+    marshal (redo (undo (doChange h [.set p k (UVal.ofVal v h.next) h.next]))).doc fuel rootId =
+      marshal (doChange h [.set p k (UVal.ofVal v h.next) h.next]).doc fuel rootId :=
+  redo_undo_do_set_overwrite_container_tree fr hp hv hk hu tree hnd hpS horph fuel
+
+/-- redo after undo of `delete obj.k` where the subtree of the value `u` is a tree of live elements -/
+theorem redo_undo_do_delete_container (h : Hist) (fr : Fresh h) (p u : Ticket) (k : String) (ue : Elem)
+    (hp : isObj h.doc p = true) (hk : winner h.doc p k = some u)
+    (hu : h.doc u = some ue) (tree : TreeBelow h.doc copyFuel u ue.body)
+    (hnd : ((copyBody h.doc copyFuel u ue.body).2.map (·.1)).Nodup)
+    (hpS : p ∉ u :: (copyBody h.doc copyFuel u ue.body).2.map (·.1))
+    (horph : orphaned (kill h.doc (some u)) noTw orphanFuel p = false) (fuel : Nat) :
+    marshal (redo (undo (doChange h [.remove p u h.next]))).doc fuel rootId =
+      marshal (doChange h [.remove p u h.next]).doc fuel rootId :=
+  redo_undo_do_delete_container_tree fr hp hk hu tree hnd hpS horph fuel
+
+section examplesContainerRedo
+open Yorkie.Undo.Nested
+
+/-- the hypotheses on the nested example `{"o":{"x":1,"y":[2]}}` (`u` = the value of "o") -/
+example : Fresh hN ∧ isObj hN.doc rootId = true ∧ winner hN.doc rootId "o" = some tO ∧
+    leafBody (Val.prim "9").body = true ∧ hN.doc tO = some eO ∧ TreeBelow hN.doc copyFuel tO eO.body ∧
+    ((copyBody hN.doc copyFuel tO eO.body).2.map (·.1)).Nodup ∧
+    rootId ∉ tO :: (copyBody hN.doc copyFuel tO eO.body).2.map (·.1) ∧
+    orphaned (kill hN.doc (some tO)) noTw orphanFuel rootId = false :=
+  ⟨fresh_hN, by decide, by decide, by decide, rfl, treeBelowB_sound _ _ _ (by decide), by decide, by decide,
+    by decide⟩
+
+example (fuel : Nat) :
+    marshal (redo (undo (doChange hN [.remove rootId tO hN.next]))).doc fuel rootId =
+      marshal (doChange hN [.remove rootId tO hN.next]).doc fuel rootId :=
+  redo_undo_do_delete_container hN fresh_hN rootId tO "o" eO (by decide) (by decide) rfl
+    (treeBelowB_sound _ _ _ (by decide)) (by decide) (by decide) (by decide) fuel
+
+/-- evaluated -/
+example :
+    visible (redo (undo (doChange hN [.set rootId "o" (UVal.ofVal (.prim "9") hN.next) hN.next]))) = "{\"o\":9}" ∧
+    visible (redo (undo (doChange hN [.remove rootId tO hN.next]))) = "{}" := by decide
+
+end examplesContainerRedo
+
+/-! ### 12. depth 2 through a restored array element (the shape of history S1), `_partial` for depth k
+
+`arr[i].k = v ; delete arr[i] ; undo ; undo` restores the starting document, for ANY heap: `x` = `arr[i]` is
+an object, `k` is free in it (or holds a tombstone), `v` is a leaf; after the first edit the element
+satisfies `ArrAtC` (its subtree is a tree of live elements: section 10) and the array is attached to a
+root outside that subtree (`rootedAvoid`, section 10).  The first undo brings `x` back as `t'` and
+rewrites the entry below it on the stack from `Remove x c` to `Remove t' c` - the target is unchanged,
+the PARENT is rewritten, which is the repair; without it this is `undo_depth2_array_container_witness`.
+The second undo finds `c` re-registered below `t'` (`restoreC_child`) and not orphaned.
+
+`_partial`: this is depth 2 for one shape.  NOT proved: the depth-k statement (`undo_stack_inv_array`,
+section 7) for an alphabet in which array elements are containers that are edited inside, deleted and
+restored.  What is missing is a stack invariant for captured values with content: the value on the
+stack is the capture made on the actual heap, it differs from the capture of the recorded state in the
+renamed identities, in the parent links of the direct children and in entries that are not printed,
+so the equation `g.undo = (stackOf chain).map (fullRen ρ)` of `Inv3` has to become a relation, `Sim`
+has to cover containers whose own identity is renamed, and `WF` needs one home per world (the children
+of `x` hang below `t'` afterwards). -/
+
+theorem undo_undo_set_delete_container_elem_partial (h h1 : Hist) (fr : Fresh h) (p x : Ticket) (k : String)
+    (v : Val) (pe xe1 : Elem) (nodes : List PosNode) (moved : Ticket → Option Ticket)
+    (hx : isObj h.doc x = true) (horph : orphaned h.doc noTw orphanFuel x = false)
+    (hv : leafBody v.body = true) (hk : winner h.doc x k = none)
+    (e1 : h1 = doChange h [.set x k (UVal.ofVal v h.next) h.next])
+    (a1 : ArrAtC h1.doc h1.lamport p x pe xe1 nodes moved) (hroot : x ≠ rootId)
+    (hrt : rootedAvoid h1.doc (x :: (copyBody h1.doc copyFuel x xe1.body).2.map (·.1)) 63 p = true)
+    (fuel : Nat) :
+    marshal (undo (undo (doChange h1 [.remove p x h1.next]))).doc fuel rootId = marshal h.doc fuel rootId :=
+  undo2_set_delete_elem_lemma fr hx horph hv hk e1 a1 hroot hrt fuel
+
+section examplesDepth2
+open Yorkie.Undo.Restored
+
+/-- hypotheses on `hR` = `{"arr":[{"p":{}}]}` with `x` = the (restored) element, `k` = "a" -/
+example : Fresh hR ∧ isObj hR.doc tX' = true ∧ orphaned hR.doc noTw orphanFuel tX' = false ∧
+    leafBody (Val.prim "1").body = true ∧ winner hR.doc tX' "a" = none ∧
+    ArrAtC hR1.doc hR1.lamport tA tX' eArr eX1 [⟨tX', some tX'⟩, ⟨tX, some tX⟩] (fun _ => none) ∧
+    rootedAvoid hR1.doc (tX' :: (copyBody hR1.doc copyFuel tX' eX1.body).2.map (·.1)) 63 tA = true :=
+  ⟨fresh_hR, by decide, by decide, by decide, by decide, arrAtC_hR1, rooted_hR1⟩
+
+example (fuel : Nat) :
+    marshal (undo (undo (doChange hR1 [.remove tA tX' hR1.next]))).doc fuel rootId = marshal hR.doc fuel rootId :=
+  undo_undo_set_delete_container_elem_partial hR hR1 fresh_hR tA tX' "a" (.prim "1") eArr eX1 _ _
+    (by decide) (by decide) (by decide) (by decide) rfl arrAtC_hR1 (by decide) rooted_hR1 fuel
+
+/-- evaluated -/
+example : visible hR1 = "{\"arr\":[{\"a\":1,\"p\":{}}]}" ∧
+    visible (doChange hR1 [.remove tA tX' hR1.next]) = "{\"arr\":[]}" ∧
+    visible (undo (doChange hR1 [.remove tA tX' hR1.next])) = "{\"arr\":[{\"a\":1,\"p\":{}}]}" ∧
+    visible (undo (undo (doChange hR1 [.remove tA tX' hR1.next]))) = "{\"arr\":[{\"p\":{}}]}" := by decide
+
+end examplesDepth2
+
+/-! ### 13. depth k with container VALUES: leaf edits, deletions and overwritings of members with content
+
+Alphabet `EditC` (Lemmas/UndoArray25.lean): the leaf edits of section 4 (`obj.k = leaf`, `delete obj.k` of
+a leaf, `counter.increase`), `removeC p u` = `delete obj.k` and `setOverC p k v` = `obj.k = leaf` where the
+present value `u` of the key is of ANY kind.  Asked of the heap at the time of such an edit (`RemoveCOk`):
+`p` is a live object that is not orphaned, `u` the live winner of the key, below `u` there is a tree
+`TreeBelowT` (Lemmas/UndoArray26.lean: every child exists and hangs below the container it is reached
+through, arrays are reproduced by `Array.DeepCopy`, nesting within `copyFuel`; REMOVED members and
+elements are allowed - the copy keeps them as tombstones without content), every identity occurs once in
+the copy and `p` is not inside.  The value may have been edited inside before (those entries lie below
+on the stack and are executed after the value came back), and edits elsewhere may follow.
+
+`undo_stack_inv_container_values`: after `a ++ b`, `|b|` undos print the document after `a`.
+`redo_stack_inv_container_values`: after `a ++ b ++ c`, `|b ++ c|` undos and `|b|` redos print the document
+after `a ++ b`.  These are the statements of section 4 for the larger alphabet.
+
+The entry `Set p k cv` left by such an edit is executed LATER, on a heap that is only observationally
+equivalent to the one after the edit (`restore_exec`, Lemmas/UndoArray24.lean): the copy writes back
+the entries recorded then (removed ones without content).  Its reverse (`Remove p u`, or `Set` of the
+overwriting leaf) is executed on a heap equivalent to the one before the edit (`redo_exec`,
+Lemmas/UndoArray27.lean); the new copy that operation makes is not used by the statement, so no condition
+on the actual heap is needed.  `checkCRun` is the Boolean version of `EditsOkC`, `treeBelowTB` of
+`TreeBelowT`.
+
+NOT covered: (1) undo AGAIN after a redo of such an edit (the entry then on the undo stack holds a copy made
+from the actual heap; the tree condition for it would have to come from an invariant on raw heaps, `Eqv`
+does not give it); (2) this alphabet mixed with the array alphabet of section 7. -/
+
+theorem undo_stack_inv_container_values (H : Home) (h : Hist) (w : WF H h.doc)
+    (bd : Bounded h.doc h.lamport) (a b : List EditC) (ok : EditsOkC H h (a ++ b)) (hb : b.length ≤ maxDepth)
+    (root : live (runEditsC h a).doc rootId = true) (fuel : Nat) :
+    marshal (undoN b.length (runEditsC h (a ++ b))).doc fuel rootId = marshal (runEditsC h a).doc fuel rootId :=
+  undo_runC_marshal w bd a b ok hb root fuel
+
+theorem redo_stack_inv_container_values (H : Home) (h : Hist) (w : WF H h.doc)
+    (bd : Bounded h.doc h.lamport) (a b c : List EditC) (ok : EditsOkC H h (a ++ (b ++ c)))
+    (hb : (b ++ c).length ≤ maxDepth) (root : live (runEditsC h (a ++ b)).doc rootId = true) (fuel : Nat) :
+    marshal (redoN b.length (undoN (b ++ c).length (runEditsC h (a ++ (b ++ c))))).doc fuel rootId =
+      marshal (runEditsC h (a ++ b)).doc fuel rootId :=
+  redo_runC_marshal w bd a b c ok hb root fuel
+
+/-- depth 1 as a special case: the theorems of section 8 for values with tombstones inside -/
+theorem undo_do_delete_container_tombstones (h : Hist) (fr : Fresh h) (p u : Ticket) (k : String) (ue : Elem)
+    (ok : RemoveCOk h.doc p u k ue) (fuel : Nat) :
+    marshal (undo (doChange h [.remove p u h.next])).doc fuel rootId = marshal h.doc fuel rootId := by
+  obtain ⟨H, w⟩ := fr.wf
+  exact undo_runC_marshal w fr.bd [] [.removeC p u] ⟨⟨k, ue, ok⟩, trivial⟩
+    (show (1 : Nat) ≤ maxDepth by decide) (live_of_skel fr.root) fuel
+
+theorem undo_do_set_overwrite_container_tombstones (h : Hist) (fr : Fresh h) (p u : Ticket) (k : String) (v : Val)
+    (ue : Elem) (ok : RemoveCOk h.doc p u k ue) (hv : leafBody v.body = true) (fuel : Nat) :
+    marshal (undo (doChange h [.set p k (UVal.ofVal v h.next) h.next])).doc fuel rootId =
+      marshal h.doc fuel rootId := by
+  obtain ⟨H, w, hkey, hpar⟩ := fresh_home fr p k
+  exact undo_runC_marshal w fr.bd [] [.setOverC p k v] ⟨⟨u, ue, ok, hv, hkey, hpar⟩, trivial⟩
+    (show (1 : Nat) ≤ maxDepth by decide) (live_of_skel fr.root) fuel
+
+theorem treeBelowTB_spec (look : Ticket → Option Elem) (f : Nat) (self : Ticket) (b : Body)
+    (hc : treeBelowTB look f self b = true) : TreeBelowT look f self b :=
+  treeBelowTB_sound f self b hc
+
+theorem checkCRun_sound (H : Home) (h : Hist) (es : List EditC) (hc : checkCRun H h es = true) :
+    EditsOkC H h es := checkCRun_ok hc
+
+section examplesContainerRun
+open Yorkie.Undo.Nested
+
+/-- `o.z = 5 ; delete o ; w = 7` on `{"o":{"x":1,"y":[2]}}` -/
+example : exNRun = [.leaf (.set tO "z" (.prim "5")), .removeC rootId tO, .leaf (.set rootId "w" (.prim "7"))] := rfl
+example : checkCRun HNC hN exNRun = true := exNRun_ok
+example : WF HNC hN.doc ∧ Bounded hN.doc hN.lamport ∧ exNRun.length ≤ maxDepth ∧ live hN.doc rootId = true :=
+  ⟨wf_dN_C, bounded_dN, by decide, by decide⟩
+
+example (fuel : Nat) : marshal (undoN 3 (runEditsC hN exNRun)).doc fuel rootId = marshal hN.doc fuel rootId :=
+  undo_stack_inv_container_values HNC hN wf_dN_C bounded_dN [] exNRun (checkCRun_ok exNRun_ok)
+    (by decide) (by decide) fuel
+
+example (fuel : Nat) : marshal (undoN 2 (runEditsC hN exNRun)).doc fuel rootId =
+    marshal (runEditsC hN (exNRun.take 1)).doc fuel rootId :=
+  undo_stack_inv_container_values HNC hN wf_dN_C bounded_dN (exNRun.take 1) (exNRun.drop 1)
+    (checkCRun_ok exNRun_ok) (by decide) (by decide) fuel
+
+/-- `o.z = 5 ; o = 9 ; w = 7` -/
+example : exNRun2 =
+    [.leaf (.set tO "z" (.prim "5")), .setOverC rootId "o" (.prim "9"), .leaf (.set rootId "w" (.prim "7"))] := rfl
+example : checkCRun HNC hN exNRun2 = true := exNRun2_ok
+example (fuel : Nat) : marshal (undoN 3 (runEditsC hN exNRun2)).doc fuel rootId = marshal hN.doc fuel rootId :=
+  undo_stack_inv_container_values HNC hN wf_dN_C bounded_dN [] exNRun2 (checkCRun_ok exNRun2_ok)
+    (by decide) (by decide) fuel
+example : visible (runEditsC hN exNRun2) = "{\"o\":9,\"w\":7}" ∧
+    visible (undoN 2 (runEditsC hN exNRun2)) = "{\"o\":{\"x\":1,\"y\":[2],\"z\":5}}" ∧
+    visible (undoN 3 (runEditsC hN exNRun2)) = "{\"o\":{\"x\":1,\"y\":[2]}}" := by decide
+
+/-- `delete o.x ; delete o ; w = 7`: the deleted value contains a tombstone -/
+example : exNRun3 = [.leaf (.remove tO tX), .removeC rootId tO, .leaf (.set rootId "w" (.prim "7"))] := rfl
+example : checkCRun HNC hN exNRun3 = true := exNRun3_ok
+example (fuel : Nat) : marshal (undoN 3 (runEditsC hN exNRun3)).doc fuel rootId = marshal hN.doc fuel rootId :=
+  undo_stack_inv_container_values HNC hN wf_dN_C bounded_dN [] exNRun3 (checkCRun_ok exNRun3_ok)
+    (by decide) (by decide) fuel
+example : visible (runEditsC hN exNRun3) = "{\"w\":7}" ∧
+    visible (undoN 2 (runEditsC hN exNRun3)) = "{\"o\":{\"y\":[2]}}" ∧
+    visible (undoN 3 (runEditsC hN exNRun3)) = "{\"o\":{\"x\":1,\"y\":[2]}}" := by decide
+
+/-- redo: all three undone, the first two redone -/
+example (fuel : Nat) : marshal (redoN 2 (undoN 3 (runEditsC hN exNRun))).doc fuel rootId =
+    marshal (runEditsC hN (exNRun.take 2)).doc fuel rootId :=
+  redo_stack_inv_container_values HNC hN wf_dN_C bounded_dN [] (exNRun.take 2) (exNRun.drop 2)
+    (checkCRun_ok exNRun_ok) (by decide) (by decide) fuel
+example (fuel : Nat) : marshal (redoN 3 (undoN 3 (runEditsC hN exNRun2))).doc fuel rootId =
+    marshal (runEditsC hN exNRun2).doc fuel rootId :=
+  redo_stack_inv_container_values HNC hN wf_dN_C bounded_dN [] exNRun2 [] (checkCRun_ok exNRun2_ok)
+    (by decide) (by decide) fuel
+example : visible (redoN 2 (undoN 3 (runEditsC hN exNRun))) = "{}" ∧
+    visible (redoN 1 (undoN 3 (runEditsC hN exNRun))) = "{\"o\":{\"x\":1,\"y\":[2],\"z\":5}}" ∧
+    visible (redoN 3 (undoN 3 (runEditsC hN exNRun2))) = "{\"o\":9,\"w\":7}" ∧
+    visible (redoN 2 (undoN 3 (runEditsC hN exNRun3))) = "{}" := by decide
+
+/-- depth 1 on the heap after `delete o.x` (the value of "o" then contains a tombstone) -/
+example : Fresh (runEditsC hN (exNRun3.take 1)) :=
+  (fresh_run [.remove tO tX] hN wf_dN_C ⟨⟨_, wf_dN_C⟩, bounded_dN, by decide⟩
+    ⟨checkOp_good (by decide), trivial⟩).1
+example : ∃ ue, RemoveCOk (runEditsC hN (exNRun3.take 1)).doc rootId tO "o" ue :=
+  checkRemoveC_ok (by decide)
+
+example : treeBelowTB hN.doc copyFuel tO eO.body = true ∧ leafBody (Val.prim "9").body = true := by decide
+
+/-- evaluated -/
+example : visible (runEditsC hN exNRun) = "{\"w\":7}" ∧
+    visible (undoN 1 (runEditsC hN exNRun)) = "{}" ∧
+    visible (undoN 2 (runEditsC hN exNRun)) = "{\"o\":{\"x\":1,\"y\":[2],\"z\":5}}" ∧
+    visible (undoN 3 (runEditsC hN exNRun)) = "{\"o\":{\"x\":1,\"y\":[2]}}" := by decide
+
+end examplesContainerRun
 
 end Yorkie.Props.C14
